@@ -29,5 +29,5 @@ PY
 rm -f $W/.bl.json )
 if [ "$1" == "--verify-only" ]; then exit 0; fi
 for p in "$@"; do
-  ( cd /verif && VERIF_REPO=$W VERIF_REPLAY_DIR=/tmp/mutreplays VERIF_EVIDENCE_DIR=/tmp/mutevidence VERIF_SCALE=${SCALE:-1} VERIF_MAX_REPORT=3 VERIF_WORKERS=${WORKERS:-8} ./check $p 2>&1 | grep "^VIOLATION\|^  signature:\|^KNOWN-FINDING\|^check:\|^C[0-9][0-9] \(quick\|thorough\):" | cut -c1-400 )
+  ( cd /verif && VERIF_REPO=$W VERIF_REPLAY_DIR=/tmp/mutreplays/$(basename $W) VERIF_EVIDENCE_DIR=/tmp/mutevidence/$(basename $W) VERIF_SCALE=${SCALE:-1} VERIF_MAX_REPORT=3 VERIF_WORKERS=${WORKERS:-8} ./check $p 2>&1 | grep "^VIOLATION\|^  signature:\|^KNOWN-FINDING\|^check:\|^C[0-9][0-9] \(quick\|thorough\):" | cut -c1-400 )
 done
